@@ -443,6 +443,11 @@ SUBS = {'extreme_draws': extreme_draws, 'quantize_grid': quantize_grid, 'quantiz
 TIMEOUTS = {k: 1500 for k in SUBS}
 
 
+# sub-spaces re-executed under other interpreter configurations (mc.core.CONFIGS): {configuration: {sub-space: stride}}
+# quick tier: every stride-th planned case, thorough tier: all planned cases
+CONFIG_PASSES = {'x64': {'quantize_special': 4, 'aggregator_rounds': 4}, 'legacy_prng': {'aggregator_rounds': 4}, 'rbg': {'aggregator_rounds': 4}}
+
+
 def plan(ctx):
   th = ctx.tier == 'thorough'
   ctx.rule = ('quantize_grid: functions {uniform(L in 2,3,4,5), binary, terngrad} x scale {1,8,1e-3,1e30} x offset {0,-3} x all '
